@@ -233,7 +233,7 @@ class _Logged(Opaque):
         self.log.append(('dropped', self.kind))
 
 
-def accept_loop(L, rep, tier, seed):
+def accept_loop(L, rep, tier, seed, prop='C20', options_only=False):
     """the accept thread (the closure Server::from_listener hands to thread::spawn, captured from the MIR) against an ARBITRARY
     environment: the close flag is raised by the environment at any moment (before a flag test, or while the thread sits in
     accept()); every accept() returns a connection or an error. Obligations: at most ONE accept() returns after the flag was
@@ -256,6 +256,8 @@ def accept_loop(L, rep, tier, seed):
     def h(ctx):
         world = SeqWorld(ctx)
         log = []
+        sockopts = []
+        ctx.data['sockopt_log'] = sockopts
         st = {'raised': False, 'accepts_after_raise': 0, 'accepts': 0, 'flag': None}
 
         def maybe_raise(it, where):
@@ -338,6 +340,10 @@ def accept_loop(L, rep, tier, seed):
             ctx.check_always(z3.BoolVal(False), 'accept-thread-does-not-panic', lambda m: dict(sc(m), panic=p.msg[:100]))
             return None
         ctx.event('witness', 'ended' if ended else 'still-accepting')
+        if options_only:
+            # C13: which options does the server set on the sockets it accepts?  (a read timeout makes pauses observable)
+            ctx.event('sample', {'accepted_socket_options': sorted(set(sockopts))})
+            return True
         if st['raised'] and ended:
             ctx.event('witness', 'ended-after-flag')
         ctx.check_always(z3.BoolVal(st['accepts_after_raise'] <= 1), 'no-second-accept-after-one-returned-with-the-flag-raised', sc)
@@ -354,7 +360,7 @@ def accept_loop(L, rep, tier, seed):
         ctx.check_always(z3.BoolVal(st['raised'] or err), 'thread-ends-only-on-flag-or-accept-error', sc)
         return True
 
-    S.run('accept-thread', h, witnesses=['ended', 'ended-after-flag', 'still-accepting'],
+    S.run('accept-thread' if not options_only else 'socket-setup', h, witnesses=['ended', 'ended-after-flag', 'still-accepting'] if not options_only else ['ended'],
           bound='the accept-thread closure of Server::from_listener (TCP or UNIX listener, no TLS), <= %d accept() calls, each returning a '
                 'connection or an error; the close flag raised at an arbitrary point' % nmax)
     seen = set()
@@ -362,7 +368,7 @@ def accept_loop(L, rep, tier, seed):
         if label in seen:
             continue
         seen.add(label)
-        rep.violation(Violation('C20', None, 'accept-thread/%s violated: %s' % (label, sc), sc, 'accept-thread/' + label))
+        rep.violation(Violation(prop, None, 'accept-thread/%s violated: %s' % (label, sc), sc, 'accept-thread/' + label))
 
 
 def drop_queries(enc):
